@@ -390,6 +390,14 @@ class Kernel:
                 del content["execution_count"], content["status"]
                 await self.send(self.iopub_socket, "error", content, parent_header=msg["header"])
 
+                #
+                # As on the ok path: make sure queued stdout is sent (with this request as
+                # parent) before execution_state idle is reported on iopub.
+                #
+                handshake_q = asyncio.Queue(0)
+                await self.housekeep_q.put(["handshake", handshake_q, 0])
+                await handshake_q.get()
+
                 content = {
                     "execution_state": "idle",
                 }
